@@ -98,6 +98,27 @@ impl<const TOTAL_NUM_BITS: u32, const NUM_INDEX_BITS: u32>
     }
 }
 
+#[cfg(feature = "verif-hooks")]
+impl<const TOTAL_NUM_BITS: u32, const NUM_INDEX_BITS: u32>
+    PhaseAccumulator<TOTAL_NUM_BITS, NUM_INDEX_BITS>
+{
+    /// `(accumulator, last_accumulator, increment, rolled_over)`
+    pub fn verif_state(&self) -> (u32, u32, u32, bool) {
+        (
+            self.accumulator,
+            self.last_accumulator,
+            self.increment,
+            self.rolled_over,
+        )
+    }
+
+    /// place the accumulator at any position without ticking there
+    pub fn verif_set_accumulator(&mut self, acc: u32) {
+        self.accumulator = acc & self.rollover_mask;
+        self.last_accumulator = self.accumulator;
+    }
+}
+
 #[cfg(test)]
 mod tests {
     use super::*;
